@@ -27,14 +27,19 @@ SIG_RULE = ("seeded generation from one PRNG (xoshiro256**, VERIF_SEED x propert
 PROPS = {
     "C17": {
         "parts": [
-            {"id": "C17", "runs": {"quick": 150_000, "thorough": 5_000_000},
+            {"id": "C17", "runs": {"quick": 800_000, "thorough": 24_000_000},
              "probes": ["probe.clock_change_while_counting", "probe.multi_tick_updates", "probe.match_and_overflow_in_one_update",
                         "probe.flag_cleared_by_cpu", "probe.vector_36", "probe.vector_37", "probe.vector_39",
                         "probe.cclr_0", "probe.cclr_1", "probe.cclr_2", "probe.cclr_3"]},
+            {"id": "C17S", "runs": {"quick": 60_000, "thorough": 1_800_000},
+             "probes": ["probe.updates_checked_in_lockstep", "probe.guest_timer_stores", "probe.multi_count_updates", "probe.request_totals_checked",
+                        "probe.timer_interrupts_delivered_or_pending", "probe.epochs"]},
         ],
         "rule": SIG_RULE + "C17 component runs: interleavings of {update_modules(1..255), CPU write TCR/TCSR/TCORA/TCORB/TCNT}; "
                 "signature = sequence of (op kind, register, TCR fields, flags after the update, number of new requests); "
-                "non-trivial = time elapsed and the counter or a flag moved.",
+                "non-trivial = time elapsed and the counter or a flag moved. "
+                "C17S whole-system runs: a generated guest programs the timer (clock changes while counting, TCNT writes, flag clears by BCLR and MOV, compare-register changes, with and without interrupt handlers) inside the real run(); "
+                "the phase oracle runs in lockstep on the real per-instruction charges, request totals = handler counters + still pending; signature = sequence of timer stores + counts checked; non-trivial = at least one count checked.",
         "assumptions": [
             "the counter clear takes effect in the count that produces the compare match (literal reading of the property)",
             "every TCR write may re-choose the phase p (both 'phase restarts on select' and 'free-running prescaler' are accepted)",
@@ -45,12 +50,16 @@ PROPS = {
     },
     "C16": {
         "parts": [
-            {"id": "C16", "runs": {"quick": 400_000, "thorough": 8_000_000},
+            {"id": "C16", "runs": {"quick": 2_000_000, "thorough": 60_000_000},
              "probes": ["probe.dr_written_while_input_differs_from_pin", "probe.dr_write_equal_to_merged_value",
                         "probe.input_to_output_with_latch_differing_from_pin", "probe.pin_change_on_output_bit"]},
+            {"id": "C16S", "runs": {"quick": 400_000, "thorough": 12_000_000},
+             "probes": ["probe.guest_port_stores", "probe.read_modify_write_stores", "event.pin_changes_applied", "probe.ioport_messages_checked"]},
         ],
         "rule": SIG_RULE + "C16 component runs: interleavings of {CPU write DDR_p, CPU write DR_p, external pins_p := v, guest time advances} on 1-3 of the 11 ports; "
-                "signature = sequence of (op kind, port, output changed?, messages emitted, direction class); non-trivial = at least two port operations.",
+                "signature = sequence of (op kind, port, output changed?, messages emitted, direction class); non-trivial = at least two port operations. "
+                "C16S whole-system runs: the guest's MOV.B/BSET/BCLR stores to DDR and DR executed by the real run(), pin changes through ioport control lines (real parse_ioport; batches, out-of-range ports, while paused) and direct pin events at seeded boundaries; "
+                "the latch model is checked at every boundary on all 11 ports, message time stamps must lie in the guest-time span of the writing instruction; signature = sequence of (store kind, port, pin event); non-trivial = at least one store and one pin change.",
         "assumptions": [
             "DDR read-back is not asserted (write-only on hardware, not stated by the property)",
             "an announcement may carry the old or the new output value of its port; the last one must equal the current output; redundant announcements of the current value are allowed",
@@ -59,7 +68,7 @@ PROPS = {
     },
     "C10": {
         "parts": [
-            {"id": "C10", "runs": {"quick": 40_000, "thorough": 1_500_000},
+            {"id": "C10", "runs": {"quick": 400_000, "thorough": 12_000_000},
              "probes": ["event.irq_injected_while_masked", "event.irq_injected_inside_handler", "event.irq_injected_while_paused",
                         "event.timer_raised_requests", "probe.interrupt_entries", "probe.trap_entries", "probe.nesting_depth_ge_2", "probe.nesting_depth_ge_4", "twin_runs"]},
         ],
@@ -75,7 +84,7 @@ PROPS = {
     },
     "C06": {
         "parts": [
-            {"id": "C06", "runs": {"quick": 12_000, "thorough": 400_000},
+            {"id": "C06", "runs": {"quick": 400_000, "thorough": 12_000_000},
              "probes": ["probe.interrupt_entries", "probe.trap_entries", "probe.rte_matched", "probe.rte_crafted", "probe.nesting_depth_ge_2", "probe.nesting_depth_ge_4"]},
         ],
         "rule": SIG_RULE + "C06 whole-system runs: same generator as C10 with more TRAPA #1-3 blocks and nested-trap handlers; every observed entry (interrupt or TRAPA) and every RTE is checked "
@@ -88,10 +97,10 @@ PROPS = {
     },
     "C18": {
         "parts": [
-            {"id": "C18N", "features": ("net",), "runs": {"quick": 60_000, "thorough": 2_000_000},
+            {"id": "C18N", "features": ("net",), "runs": {"quick": 300_000, "thorough": 9_000_000},
              "probes": ["probe.ended_by_stop_all_lines_applied", "probe.prefix_consistency_checked", "probe.guest_ran_to_exit", "event.half_close",
                         "event.stream_ended_inside_a_line", "event.short_reads_and_writes", "event.chunking_whole_script", "event.chunking_tiny", "event.chunking_random"]},
-            {"id": "C18", "runs": {"quick": 150_000, "thorough": 4_000_000},
+            {"id": "C18", "runs": {"quick": 800_000, "thorough": 24_000_000},
              "probes": ["event.batches_with_several_lines", "event.batches_delivered_while_paused", "probe.malformed_line_followed_by_lines_in_same_batch",
                         "probe.quiet_point_checks", "probe.ended_by_stop", "probe.ended_paused", "probe.ran_to_exit", "probe.wait_start"]},
         ],
@@ -111,7 +120,7 @@ PROPS = {
     },
     "C13": {
         "parts": [
-            {"id": "C13", "runs": {"quick": 6_400, "thorough": 200_000}, "time_limit": {"quick": 120, "thorough": 1500},
+            {"id": "C13", "runs": {"quick": 8_000, "thorough": 240_000}, "time_limit": {"quick": 120, "thorough": 1500},
              "probes": ["probe.ran_to_exit", "probe.ended_by_failing_instruction", "probe.sync_thresholds_crossed", "probe.ended_within_4000_states_of_a_threshold",
                         "probe.example_elf_through_real_loader", "probe.timer_register_stores_seen", "probe.timer_request_totals_checked", "event.host_sleeps", "event.host_stalls"]},
         ],
@@ -125,7 +134,7 @@ PROPS = {
     },
     "C14": {
         "parts": [
-            {"id": "C14", "runs": {"quick": 200_000, "thorough": 5_000_000},
+            {"id": "C14", "runs": {"quick": 1_200_000, "thorough": 36_000_000},
              "probes": ["probe.write_calls_checked", "probe.set_handler_installed", "probe.set_handler_ignored_vector", "probe.entries_through_installed_handler",
                         "event.irq_right_behind_set_handler", "probe.unsupported_call_stops_with_error", "probe.buffer_at_region_end", "probe.zero_length_write", "probe.write_ge_256_bytes"]},
         ],
@@ -141,10 +150,10 @@ PROPS = {
     "C15": {
         "death_is_violation": True,
         "parts": [
-            {"id": "C15", "profile": "release", "runs": {"quick": 600_000, "thorough": 12_000_000},
+            {"id": "C15", "profile": "release", "runs": {"quick": 1_000_000, "thorough": 30_000_000},
              "probes": ["fault.control_lines", "fault.irq", "fault.poke_bus_controller", "fault.poke_io_register", "fault.poke_memory", "fault.poke_vector",
                         "fault.set_pc", "fault.set_sp", "fault.set_reg", "fault.set_ccr", "fault.landed_inside_handler", "outcome.err", "outcome.ok", "runs_storm", "runs_structured"]},
-            {"id": "C15", "profile": "checked", "runs": {"quick": 600_000, "thorough": 12_000_000},
+            {"id": "C15", "profile": "checked", "runs": {"quick": 1_000_000, "thorough": 30_000_000},
              "probes": ["fault.control_lines", "fault.irq", "fault.poke_bus_controller", "fault.poke_io_register", "fault.poke_memory", "fault.poke_vector",
                         "fault.set_pc", "fault.set_sp", "fault.set_reg", "fault.set_ccr", "fault.landed_inside_handler", "outcome.err", "outcome.ok", "runs_storm", "runs_structured"]},
         ],
